@@ -875,6 +875,9 @@ def generate(rng, index, tier):
                              rng.choice([0.01, 0.1])]
                             for j in range(rng.randint(1, 2))]
                            for _ in range(3)]
+            if rng.random() < 0.5:
+                # a control individual: measurements but no dose rows
+                cr['doses'][rng.randrange(cr['n_ids'])] = []
         if need_pop and rng.random() < 0.6 and zoo.pop_n_cov(pop) == 0:
             cpop = set_n_ids_recipe(pop, cr['n_ids'])
             recipes.append({'h': 'cpop', 'kind': 'pop', 'pop': cpop,
@@ -953,6 +956,10 @@ def generate(rng, index, tier):
     n_ops = rng.randint(3, 40 if tier == 'thorough' else 16)
     kinds = {r['h']: r['kind'] for r in recipes}
     weights = {h: rng.uniform(0.3, 2.0) for h in handles}
+    if 'ctrl' in weights:
+        # the order in which a controller is asked for individuals matters
+        # only if it is asked several times
+        weights['ctrl'] = 5.0
     ops = []
     dos = None
     for op in mech.get('config', []):
